@@ -193,7 +193,19 @@ def run_shard(spec):
     return res
 
 
+CHARSETS = ["bk", "bk", "koi8-r", "cp1251", "cp866"]
+
+
 def build_case(group, base, rnd):
+    # the output charset is part of what a character-literal operand denotes: programs of one shard (one process) use different
+    # charsets, and the same Cyrillic literals recur among them
+    cs = rnd.choice(CHARSETS)
+    case = _build_case(group, base, rnd, cs)
+    case["charset"] = cs
+    return case
+
+
+def _build_case(group, base, rnd, cs):
     """Turn recipes into an APM program + rendered text + the abstract statements (JSON-able)."""
     from vlib import apm
     stmts = [apm.link(apm.num(base))]
@@ -269,7 +281,8 @@ def build_case(group, base, rnd):
         if rnd.random() < 0.05:
             # operand values spelled as radix-50 and character literals of one, two or three characters
             lit = rnd.choice([("r50", "".join(rnd.choice("ABCXYZ019$.%") for _ in range(rnd.randrange(1, 4)))), ("chr", rnd.choice("AZaz09#")),
-                              ("chr", rnd.choice("AZaz") + rnd.choice("09bY"))])
+                              ("chr", rnd.choice("AZaz") + rnd.choice("09bY")),
+                              ("chr", rnd.choice("яжбЮЩ")), ("chr", rnd.choice("яжZ") + rnd.choice("бЮ1"))])
             stmts.append(rnd.choice([apm.insn("mov", ("imm", lit), ("reg", rnd.randrange(6))), apm.insn("cmp", ("idx", lit, rnd.randrange(6)), ("abs", lit)),
                                      apm.insn("bis", ("imm", ("bin", "+", lit, apm.num(1))), ("mode", 1, rnd.randrange(6)))]))
         if rnd.random() < 0.15:
@@ -283,7 +296,13 @@ def build_case(group, base, rnd):
             stmts[a:b] = [apm.repeat(apm.num(rnd.choice([2, 2, 3])), stmts[a:b])]
     for name, v in syms:
         stmts.append(apm.assign(name, apm.num(v)))
-    layout = rnd.choice(["plain", "plain", "link-last", "included", "included-link-last", "shadowed", "included-twice", "twin"])
+    layout = rnd.choice(["plain", "plain", "link-last", "included", "included-link-last", "shadowed", "included-twice", "twin", "third"])
+    if layout == "third":
+        # the same statements as the third of three linked files: it starts where the first two end
+        pad1 = [stmts[0], apm.insn("nop"), apm.data(".word", apm.num(rnd.randrange(0x10000))), apm.blk(".blkb", apm.num(2 * rnd.randrange(1, 40)))]
+        pad2 = [apm.insn("clr", ("reg", rnd.randrange(6))), apm.blk(".blkb", apm.num(2 * rnd.randrange(1, 40))), apm.data(".word", apm.num(0o125252))]
+        prog = apm.Program([apm.SrcFile("pad1.mac", pad1), apm.SrcFile("pad2.mac", pad2), apm.SrcFile("main.mac", stmts[1:])])
+        return {"kind": "prog", "layout": layout, "prog": apm.to_json(prog), "base": base, "text": apm.r_file(prog.files[2])}
     if layout == "twin" and syms:
         # a second linked file with the same statements and the same PRIVATE names, which have other values there
         import copy
@@ -378,6 +397,9 @@ def run_case(case, cnt=None):
         elif k == "assign":
             stmts.append(apm.assign(name, ops[0]))
     prog = apm.Program([apm.SrcFile("/c01/main.mac", stmts)]) if "prog" not in case else apm.from_json(case["prog"])
+    cs = case.get("charset", "bk")
+    prog.charset = cs
+    cnt["charset_" + cs] = cnt.get("charset_" + cs, 0) + 1
     try:
         ref = apm.Ref(prog).run()
     except (apm.RefError, apm.Unmodelled) as ex:
@@ -390,12 +412,12 @@ def run_case(case, cnt=None):
         from vlib import refcheck
         sub = tempfile.mkdtemp(prefix="c01-", dir=os.getcwd())
         try:
-            o = asm.assemble(refcheck.materialise(prog, refcheck.render_all(prog), sub), wall=120)
+            o = asm.assemble(refcheck.materialise(prog, refcheck.render_all(prog), sub), charset=cs, wall=120)
         finally:
             shutil.rmtree(sub, ignore_errors=True)
         cnt["symbolic_address_programs"] = cnt.get("symbolic_address_programs", 0) + 1
     else:
-        o = asm.assemble([("/c01/main.mac", case["text"])], wall=120)
+        o = asm.assemble([("/c01/main.mac", case["text"])], charset=cs, wall=120)
     if o.cls == "stall":
         return out
     if o.cls != "ok":
